@@ -50,6 +50,11 @@ Proof.
   pose proof (tokens_le_bytes T0 HT0 e ts H). lia.
 Qed.
 
+Example C14_parser_as_written_example :
+  let ts := [TOp OLp; TLic (s2l "MIT"); TOp OOr; TLic (s2l "ISC"); TOp ORp; TOp OAnd; TLic (s2l "Zlib")] in
+  snd (runA_t (S (length ts)) [] g0 ts) = 22 /\ 5 * length ts + 3 = 38.
+Proof. vm_compute. split; reflexivity. Qed.
+
 (* the scanner: its one super-linear step is the rebuild of the whole buffer whenever an X-or-later is rewritten to X+.
    One token never makes the buffer longer (a rewrite removes nine bytes and inserts one), so all rebuilds of one
    scan together copy at most |text| bytes per loop iteration: (|text|+1)^2 with the iterations themselves - quadratic,
